@@ -29,6 +29,7 @@ func dumpReplay(fn string) {
 	cr.execute(ops, nil)
 	w := os.Stderr
 	fmt.Fprintf(w, "infeasible=%q setupEnd=%d events=%d\n", cr.Infeasible, cr.SetupEnd, len(cr.Events))
+	fmt.Fprintf(w, "pin vector at end of history: %v\n", cr.EndPins)
 	for i, oc := range cr.Exec.Outcomes {
 		fmt.Fprintf(w, "op %d: %s %s\n", i, oc.Status, oc.Detail)
 	}
@@ -91,6 +92,7 @@ func dumpReplay(fn string) {
 		}
 		s, out := recoverImage(cr.Dir, im, cfg.Frames, cr.Tables, false)
 		if s != nil {
+			fmt.Fprintf(w, "pin vector after recovery (%d frames): %v\n", cfg.Frames, s.PinVector())
 			s.Crash()
 		}
 		fmt.Fprintf(w, "recovered: panic=%v\n", out.Panic)
